@@ -334,6 +334,12 @@ pub fn run(ctx: &RunCtx) -> i32 {
             r.sym_n("sweep-message-types", 2 * 16384);
         }),
         Box::new(|r| {
+            for lm in menu::extra_sweep_msgs() {
+                roundtrip(&lm, None, r);
+            }
+            r.sym_n("sweep-non-last-lengths-addresses-bits-lists", 1);
+        }),
+        Box::new(|r| {
             // XOR attributes under every id of the walking-bit family
             for tid in menu::xor_tids() {
                 for a in menu::addrs(true) {
@@ -386,7 +392,7 @@ pub fn run(ctx: &RunCtx) -> i32 {
         Finish {
             level: "exploration",
             rule: format!(
-                "every message with 0..=2 body attributes over the {}-entry value menu in every order x 8 tails, every triple over the {}-entry menu x 2 tails, every header of the header menu on singles, full scalar sweeps (u16 fields, error codes 300..=699, 128x512 ICMP, string lengths 0..=509, blob lengths 0..=1024, all 16384 message types, XOR under 123 ids); a case is non-trivial when it was built, encoded, decoded and compared equal (index tuples are distinct by construction)",
+                "every message with 0..=2 body attributes over the {}-entry value menu in every order x 8 tails, every triple over the {}-entry menu x 2 tails, every header of the header menu on singles, full scalar sweeps (u16 fields, error codes 300..=699, 128x512 ICMP, string lengths 0..=509, blob lengths 0..=1024, all 16384 message types, XOR under 123 ids; as non-last and as last attribute: every blob length 0..=1030, every string length, a walking byte through every address byte of all 7 address attributes, every single-bit integer value and its complement, lists of every length 0..=8); a case is non-trivial when it was built, encoded, decoded and compared equal (index tuples are distinct by construction)",
                 n_full, n_tri
             ),
             assumptions: vec![
@@ -394,7 +400,7 @@ pub fn run(ctx: &RunCtx) -> i32 {
                 "USERNAME is compared after OpaqueString enforcement (hand-written R-strings table)".into(),
                 "PASSWORD-ALGORITHM with empty parameters and with no parameters are the same logical value".into(),
             ],
-            required_symbols: vec!["sweep-u16", "sweep-message-types", "key-menu", "Nonce", "XorMappedAddress", "Icmp"],
+            required_symbols: vec!["sweep-u16", "sweep-message-types", "sweep-non-last-lengths-addresses-bits-lists", "key-menu", "Nonce", "XorMappedAddress", "Icmp"],
             min_outcomes: 2,
             exhaustive: true,
             bounds: json!({"L_full_menu": 2, "L_triples_menu": n_tri, "menu": n_full, "tails": 8}),
